@@ -180,5 +180,7 @@ JBuildMapping(e) ==
      R("C11", "encoding_is_deterministic", r.ok, r.same, cls),
      R("C11", "size_field_counts_following_bytes", r.ok /\ Len(r.ser) >= 2, U16(r.ser, 0) = Len(r.ser) - 2, cls),
      R("C11", "bytes_parse_back_to_same_map", enc /\ r.ok /\ DistinctKeys(e.pairs),
-       r.rt.nerr = 0 /\ r.rt.remlen = 0 /\ r.rt.mapeq /\ r.rt.ser2 = r.ser, cls) >>
+       r.rt.nerr = 0 /\ r.rt.remlen = 0 /\ r.rt.mapeq /\ r.rt.ser2 = r.ser, cls),
+     \* ... and still do after the caller has edited the Go map it was handed
+     R("C11", "decoded_map_unaffected_by_caller_edits", enc /\ r.ok /\ DistinctKeys(e.pairs) /\ r.rt.mapeq, r.rt.mapeq_after_caller_edit, cls) >>
 =============================================================================
